@@ -300,6 +300,20 @@ class Interp:
                     env['__vec_last'] = {k: v for k, v in vl.items() if k not in mut_args}
             if name in ('unwrap', 'expect') and args and is_adt(args[0], 'option::Option', 'Some') and 'option::Option' in d:
                 return args[0][4][0], args
+            # iteration over a concrete element list (vec/slice of known elements): exact, path-local cursor
+            if name in ('into_iter', 'iter') and len(args) == 1 and args[0][0] == 'tuple':
+                self.serial += 1
+                return ('iter', self.serial, args[0][1]), args
+            if name == 'into_iter' and len(args) == 1 and args[0][0] == 'iter':
+                return args[0], args
+            if name == 'next' and len(args) == 1 and args[0][0] == 'iter':
+                cur = dict(env.get('__iter') or {})
+                i = cur.get(args[0][1], 0)
+                if i < len(args[0][2]):
+                    cur[args[0][1]] = i + 1
+                    env['__iter'] = cur
+                    return SOME(args[0][2][i]), args
+                return NONE, args
         # structural equality
         if path_endswith(tr, 'cmp::PartialEq') and name in ('eq', 'ne') and len(args) == 2:
             a, b = args
@@ -340,6 +354,13 @@ class Interp:
         target = None
         if r is not None:
             target = self.prog.by_path.get(r)
+        if target is None and path_endswith(tr, 'convert::Into') and name == 'into' and len(args) == 1 and len(c.get('args') or []) >= 2:
+            # blanket `impl<T, U: From<T>> Into<U> for T`: into(x) is U::from(x); follow a local From impl
+            src_ty, dst_ty = c['args'][0], c['args'][1]
+            for cand in self.prog.fns:
+                if cand.name == 'from' and cand.j.get('impl_self_ty') == dst_ty and path_endswith(cand.j.get('impl_trait') or '', 'convert::From') and (cand.j.get('inputs') or [None])[0] == src_ty:
+                    target = cand
+                    break
         if target is None and c.get('local'):
             target = self.prog.by_path.get(d)
         if target is not None and target.j.get('derived') and path_endswith(target.j.get('impl_trait') or '', 'clone::Clone') and len(args) == 1:
